@@ -45,7 +45,7 @@ REAL_VS_STUB = {
     'stub_or_simulator_owned': ['flatten/unflatten callables', 'warnings filters + showwarning hook', 'metaclass hooks',
                                 'operation / fault history (choice tape)'],
 }
-EXPECTED_PROBES = ('dataclass-retry-after-failure', 'op:register', 'op:unregister', 'op:register_class', 'op:dataclass', 'fault:arg', 'fault:warn-error',
+EXPECTED_PROBES = ('run-under-insertion-order', 'dataclass-retry-after-failure', 'op:register', 'op:unregister', 'op:register_class', 'op:dataclass', 'fault:arg', 'fault:warn-error',
                    'fault:showwarning-raise', 'fault:hook-raise', 'outcome:ok', 'outcome:raised', 'atomicity-checked',
                    'shadowing-observed')
 
@@ -307,6 +307,18 @@ SYMBOLS = None
 
 def run_job(job, io):
     tape = Tape(replay=job['tape']) if 'tape' in job else Tape(seed=derive_seed(job.get('seed', 0), PROPERTY, job.get('i', 0), tuple(job.get('sweep') or ())))
+    # a configuration: one run in four happens inside an insertion-ordered block (for namespace 'a' or for all namespaces); what
+    # the Python-visible registry says about registrations must not depend on it
+    mode = tape.draw(4, 'dict-order-mode') if job.get('sweep') is None and not job.get('_warm') else 0
+    if mode == 3:
+        with optree.dict_insertion_ordered(True, namespace=('a', GLOBAL)[tape.draw(2, 'dict-order-ns')]):
+            out = _run_body(job, io, tape)
+        out.setdefault('probes', {})['run-under-insertion-order'] = 1
+        return out
+    return _run_body(job, io, tape)
+
+
+def _run_body(job, io, tape):
     violations, keys, probes = [], set(), collections.Counter()
     oplog = []
     types = universe_for_run()
